@@ -422,6 +422,8 @@ package memefish
 // @ spec cStart(l, p0, k) = ite(k == 0, p0, l.Token.Comments[k - 1].End)
 // @ spec commentOK(l, p0, k) = p0 <= cStart(l, p0, k) && cStart(l, p0, k) <= l.Token.Comments[k].Pos && l.Token.Comments[k].Pos < l.Token.Comments[k].End && l.Token.Comments[k].End <= len(l.Buffer) && isSub(l.Token.Comments[k].Space, l.Buffer, cStart(l, p0, k), l.Token.Comments[k].Pos) && isSub(l.Token.Comments[k].Raw, l.Buffer, l.Token.Comments[k].Pos, l.Token.Comments[k].End) && spaceOnly(l.Buffer, cStart(l, p0, k), l.Token.Comments[k].Pos)
 // @ spec commentsOK(l, p0) = forall k: 0 <= k && k < len(l.Token.Comments) ==> commentOK(l, p0, k)
+// where the blank space and comments in front of the current token begin: the end of the previous token (C06)
+// @ spec trivStart(l) = ite(len(l.Token.Comments) > 0, l.Token.Comments[0].Pos - len(l.Token.Comments[0].Space), l.Token.Pos - len(l.Token.Space))
 // @ spec triviaEnd(l, p0) = ite(len(l.Token.Comments) == 0, p0, l.Token.Comments[len(l.Token.Comments) - 1].End)
 
 // @ func memefish.(*Lexer).nextToken
@@ -443,6 +445,7 @@ package memefish
 // @   ensures !noPanic ==> l.Token.Kind != "<bad>"
 // @   ensures[C12,C14] punct1: len(l.Token.Kind) == 1 ==> l.Token.End == l.Token.Pos + 1 && l.Buffer[l.Token.Pos] == l.Token.Kind[0]
 // @   ensures[C10,C14] shr: l.Token.Kind == ">>" ==> l.Token.End == l.Token.Pos + 2
+// @   ensures[C06] trivstart: l.Token.Kind != "<bad>" ==> trivStart(l) == old(l.pos)
 // @   ensures[C10] gap: (len(l.Token.Space) > 0 || len(l.Token.Comments) > 0) == (l.Token.Pos > old(l.pos))
 // @   ensures l.Token.Kind != ""
 // @   panics when !noPanic
